@@ -69,6 +69,35 @@ pub fn pool(lane: usize, threads: usize) -> Pool {
 pub struct BuildOpts {
     pub provide: bool,
     pub capture_debug: bool,
+    /// also call `print_par_seq` (stdout is pointed at /dev/null for the duration of the call)
+    pub call_print: bool,
+}
+
+static PRINT_LOCK: Mutex<()> = Mutex::new(());
+
+/// runs `f` with file descriptor 1 redirected to /dev/null
+fn with_stdout_silenced<R>(f: impl FnOnce() -> R) -> R {
+    use std::io::Write;
+    let _g = PRINT_LOCK.lock().unwrap_or_else(|e| e.into_inner());
+    let _ = std::io::stdout().flush();
+    // SAFETY: plain POSIX calls on descriptors this function owns
+    unsafe {
+        let saved = libc::dup(1);
+        let null = libc::open(b"/dev/null\0".as_ptr() as *const libc::c_char, libc::O_WRONLY);
+        if saved >= 0 && null >= 0 {
+            libc::dup2(null, 1);
+        }
+        let r = f();
+        let _ = std::io::stdout().flush();
+        if saved >= 0 {
+            libc::dup2(saved, 1);
+            libc::close(saved);
+        }
+        if null >= 0 {
+            libc::close(null);
+        }
+        r
+    }
 }
 
 impl Default for BuildOpts {
@@ -76,6 +105,7 @@ impl Default for BuildOpts {
         BuildOpts {
             provide: true,
             capture_debug: false,
+            call_print: false,
         }
     }
 }
@@ -259,6 +289,15 @@ pub fn build_builder(
     if opts.capture_debug {
         let text = catch_unwind(AssertUnwindSafe(|| format!("{:?}", b))).map_err(|p| panic_msg(&p));
         ctx.debug_texts.lock().unwrap().insert(bid, text);
+    }
+    if opts.call_print {
+        let r = with_stdout_silenced(|| catch_unwind(AssertUnwindSafe(|| b.print_par_seq())));
+        if let Err(p) = r {
+            ctx.debug_texts
+                .lock()
+                .unwrap()
+                .insert(bid, Err(format!("print_par_seq panicked: {}", panic_msg(&p))));
+        }
     }
     Ok(b)
 }
